@@ -298,6 +298,30 @@ def _target_name(loop):
     return loop.target.id if isinstance(loop.target, ast.Name) else None
 
 
+def inline_private_calls(tree, stmts):
+    """follow calls to module-level helper functions one level: an expression statement `helper(a, b)` whose callee is a
+    module-level def with plain positional parameters and a body of simple assignments is replaced by that body with the
+    parameters substituted by the (name) arguments"""
+    defs = {st.name: st for st in tree.body if isinstance(st, ast.FunctionDef)}
+    out = []
+    for st in stmts:
+        call = st.value if isinstance(st, ast.Expr) and isinstance(st.value, ast.Call) else None
+        fn = defs.get(call.func.id) if call is not None and isinstance(call.func, ast.Name) else None
+        if fn is not None and not call.keywords and all(isinstance(a, ast.Name) for a in call.args) \
+                and len(call.args) == len(fn.args.args) and not fn.args.vararg and not fn.args.kwarg \
+                and all(isinstance(b, ast.Assign) for b in strip_doc(fn.body)):
+            sub = {p.arg: a.id for p, a in zip(fn.args.args, call.args)}
+
+            class Ren(ast.NodeTransformer):
+                def visit_Name(self, node):
+                    return ast.copy_location(ast.Name(id=sub.get(node.id, node.id), ctx=node.ctx), node)
+            import copy
+            out.extend(Ren().visit(copy.deepcopy(b)) for b in strip_doc(fn.body))
+        else:
+            out.append(st)
+    return out
+
+
 def expand_facts(tree):
     q = "iter_timestamped_records"
     fn = find_def(tree, q)
@@ -324,6 +348,7 @@ def expand_facts(tree):
     if e is None:
         raise Unsupported("%s: the loop does not run over the selected fields" % where(q, loop))
     env = e
+    loop.body = inline_private_calls(tree, loop.body)
     if len(loop.body) < 3:
         raise Unsupported("%s: the loop body has %d statements, expected at least 3" % (where(q, loop), len(loop.body)))
     e = match("V_ts = TimestampRecord(getattr(V_src, V_f.name), V_f.name)", loop.body[0], env)
@@ -682,20 +707,288 @@ def cache_key_facts(tree, base):
     deco = [ast.unparse(d) for d in fnm.decorator_list]
     if not any("lru_cache" in d for d in deco):
         deco = []
-    # behavioural probe: descriptors of one name whose (field name + typename) concatenations coincide
+    return dict(structural=structural, memoised=bool(deco))
+
+
+# --------------------------------------------------------------------------------------------------
+# OBSERVED facts: fixed probe batteries run on the real functions.  The ast recognisers above are cross-checks: a
+# recognised shape that contradicts the observation fails closed; an unrecognised spelling is noted and the
+# observation is used.
+
+def _probe_env(base):
+    import datetime as _dt
+    utc = _dt.timezone.utc
+    return dict(G1=_dt.datetime(2020, 1, 2, 3, 4, 5, tzinfo=utc), G2=_dt.datetime(2021, 6, 7, 8, 9, 10, tzinfo=utc),
+                T1=_dt.datetime(2001, 1, 1, tzinfo=utc), T2=_dt.datetime(2002, 2, 2, tzinfo=utc), RD=base.RecordDescriptor)
+
+
+def _sim_merge(triple, replace, descs):
+    present, nr, im = triple
+    m = {}
+    for d in descs:
+        for t, n in d:
+            skip = present and ((not replace) if nr else True) and ((n in m) if im else True)
+            if not skip:
+                m[n] = t
+    return [(t, n) for n, t in m.items()]
+
+
+def observe_merge(base):
+    e = _probe_env(base)
+    RD = e["RD"]
+    defs = [("probe/m1", [("string", "a"), ("varint", "b")]), ("probe/m2", [("varint", "a"), ("string", "c")]),
+            ("probe/m3", [("float", "c"), ("bytes", "a"), ("string", "d")])]
+    ds = [RD(n, f) for n, f in defs]
+    batteries = [(0, 1, 2), (1, 0), (2, 1, 0), (0,), (1, 1)]
+    seen = []
+    try:
+        for idx in batteries:
+            for replace in (False, True):
+                out = base.merge_record_descriptors(tuple(ds[i] for i in idx), replace)
+                if out.name != defs[idx[0]][0]:
+                    raise Unsupported("merge_record_descriptors names the result %r, not like the first descriptor" % out.name)
+                seen.append((idx, replace, list(out.get_field_tuples())))
+        if base.merge_record_descriptors((ds[0], ds[1]), False, "probe/renamed").name != "probe/renamed":
+            raise Unsupported("merge_record_descriptors ignores name=")
+    except Unsupported:
+        raise
+    except Exception as ex:  # noqa
+        raise Unsupported("merge_record_descriptors raised %r on the probe descriptors" % (ex,))
+    for triple in [(True, True, True), (True, False, True), (False, False, False), (True, True, False), (True, False, False)]:
+        if all(_sim_merge(triple, replace, [defs[i][1] for i in idx]) == got for idx, replace, got in seen):
+            return dict(present=triple[0], not_replace=triple[1], in_map=triple[2])
+    raise Unsupported("merge_record_descriptors behaves like none of the modelled guard variants on the probe descriptors: %r" % (seen[:4],))
+
+
+def observe_extend(base):
+    e = _probe_env(base)
+    RD = e["RD"]
+    D1, D2, D3 = RD("probe/e1", [("string", "a"), ("varint", "b")]), RD("probe/e2", [("string", "a"), ("string", "c")]), RD("probe/e3", [("string", "a")])
+    r1 = D1(a="one", b=2, _source="s1", _generated=e["G1"])
+    r2 = D2(a="two", c="c2", _source="s2", _generated=e["G2"])
+    r3 = D3(a="three", _source="s3", _generated=e["G2"])
+    res = {}
+    try:
+        for replace in (False, True):
+            out = base.extend_record(r1, [r2, r3], replace=replace)
+            who = {"one": "first", "three": "last"}.get(out.a)
+            who_meta = {"s1": "first", "s3": "last"}.get(out._source)
+            if who is None or who != who_meta or out.b != 2 or out.c != "c2":
+                raise Unsupported("extend_record(replace=%r) on the probe records gave a=%r _source=%r b=%r c=%r" % (replace, out.a, out._source, out.b, out.c))
+            res[replace] = who == "last"
+    except Unsupported:
+        raise
+    except Exception as ex:  # noqa
+        raise Unsupported("extend_record raised %r on the probe records" % (ex,))
+    return dict(rev_replace=res[True], rev_keep=res[False], chain_in_order=True)
+
+
+def observe_init(base):
+    D = base.RecordDescriptor("probe/i1", [("string", "a"), ("varint", "b")])
+    try:
+        r = D.init_from_dict({"a": "x", "zz": 1})
+        ok = r.a == "x" and r.b is None
+    except TypeError:
+        return dict(filters=False)
+    if not ok:
+        raise Unsupported("init_from_dict with an unknown key gave %r" % (r,))
+    try:
+        D.init_from_dict({"a": "x", "zz": 1}, raise_unknown=True)
+        raise Unsupported("init_from_dict(raise_unknown=True) accepts an unknown key")
+    except TypeError:
+        pass
+    return dict(filters=True)
+
+
+def observe_expand(base):
+    e = _probe_env(base)
+    A = e["RD"]("probe/ts", [("datetime", "a"), ("string", "x"), ("datetime", "ts")])
+    r = A(a=e["T1"], x="xx", ts=e["T2"], _source="host1", _classification="secret", _generated=e["G1"])
+    r._version = 7
+    try:
+        outs = list(base.iter_timestamped_records(r))
+        fresh = base.TimestampRecord(e["T1"], "a")
+    except Exception as ex:  # noqa
+        raise Unsupported("iter_timestamped_records raised %r on the probe record" % (ex,))
+    if len(outs) != 2 or [o.ts_description for o in outs] != ["a", "ts"] or outs[0].ts != e["T1"]:
+        raise Unsupported("iter_timestamped_records on probe/ts(datetime a, string x, datetime ts) yielded %r" % (outs,))
+    if outs[1].ts == e["T2"]:
+        from_original = True
+    elif outs[1].ts == e["T1"]:
+        from_original = False
+    else:
+        raise Unsupported("the second expanded record has ts=%r" % (outs[1].ts,))
+    metas = []
+    for o in outs:
+        m = []
+        for slot in base.RESERVED_FIELDS:
+            mine, theirs, got = getattr(r, slot), getattr(fresh, slot), getattr(o, slot)
+            if mine == theirs:
+                raise Unsupported("probe cannot tell whether %s is copied" % slot)
+            if got == mine:
+                m.append(slot)
+        metas.append(m)
+    if metas[0] != metas[1]:
+        raise Unsupported("the expanded records do not carry the same metadata slots of the original: %r" % (metas,))
+    # which field types are expanded
+    types = ["datetime", "string", "varint", "float", "boolean", "bytes", "uri", "datetime[]", "path", "digest", "wstring", "filesize"]
+    B = e["RD"]("probe/types", [(t, "f%d" % i) for i, t in enumerate(types)])
+    rb = B(_generated=e["G1"], **{"f0": e["T1"], "f7": [e["T2"]]})
+    try:
+        sel = sorted({types[int(o.ts_description[1:])] for o in base.iter_timestamped_records(rb) if o is not rb})
+    except Exception as ex:  # noqa
+        raise Unsupported("iter_timestamped_records raised %r on the probe record with one field per type" % (ex,))
+    if len(sel) != 1:
+        raise Unsupported("iter_timestamped_records expands the field types %r" % (sel,))
+    nots = e["RD"]("probe/nots", [("string", "x")])(x="1", _generated=e["G1"])
+    same = list(base.iter_timestamped_records(nots))
+    if len(same) != 1 or same[0] is not nots:
+        raise Unsupported("a record without datetime fields is not yielded as it is")
+    return dict(select=sel[0], from_original=from_original, meta=metas[0])
+
+
+def observe_group(base):
+    e = _probe_env(base)
+    RD, GR = e["RD"], base.GroupedRecord
+    A, B = RD("probe/ga", [("string", "x"), ("varint", "p")]), RD("probe/gb", [("string", "x"), ("string", "z")])
+    N = RD("probe/gn", [("string", "name"), ("string", "z")])
+
+    def mk():
+        return A(x="ax", p=1, _source="sa", _generated=e["G1"]), B(x="bx", z="bz", _source="sb", _generated=e["G2"])
+    ra, rb = mk()
+    try:
+        g = GR("grp/p", [ra, rb])
+    except base.RecordDescriptorError:
+        # the flat descriptor could not be built: reserved names among the flat fields
+        return dict(first_wins=True, flat_excl=False, routes=True, maps_to_leaf=True, attrs=[], reads_member=True, raises=True)
+    except Exception as ex:  # noqa
+        raise Unsupported("GroupedRecord raised %r on the probe records" % (ex,))
+    try:
+        owner = g.fieldname_to_record["x"]
+        first_wins = {id(ra): True, id(rb): False}.get(id(owner))
+        if first_wins is None or g._asdict()["x"] != ("ax" if first_wins else "bx") or g._asdict()["_source"] != ("sa" if first_wins else "sb"):
+            raise Unsupported("GroupedRecord maps the shared field of the probe members to %r" % (owner,))
+        names = [n for _, n in g._desc.get_field_tuples()]
+        flat_excl = not any(n in base.RESERVED_FIELDS for n in names)
+        if [n for n in names if n not in base.RESERVED_FIELDS] != ["x", "p", "z"] or list(g.records) != [ra, rb]:
+            raise Unsupported("GroupedRecord of the probe members has the flat fields %r" % (names,))
+        routes = (g.z == "bz" and g.p == 1)
+        g.z = "viaz"
+        routes = routes and rb.z == "viaz" and g.z == "viaz" and ra.x == "ax"
+        attrs = sorted(vars(g).keys())
+        # nested group
+        na, nb = mk()
+        nn = N(name="alice", z="nz", _generated=e["G1"])
+        inner = GR("grp/i", [nb, nn])
+        outer = GR("grp/o", [na, inner])
+        if list(outer.records) != [na, nb, nn]:
+            raise Unsupported("a nested group is not flattened into the members")
+        o = outer.fieldname_to_record["z"]
+        maps_to_leaf = {id(nb): True, id(inner): False}.get(id(o))
+        if maps_to_leaf is None:
+            raise Unsupported("the outer probe group maps a nested group's field to %r" % (o,))
+        if (outer._asdict()["name"] == "alice") != maps_to_leaf:
+            raise Unsupported("the outer probe group's _asdict()['name'] is %r" % (outer._asdict()["name"],))
+        # _replace
+        pa, pb = mk()
+        new = GR("grp/p", [pa, pb])._replace(z="new")
+        got = (new.records[0].x, new.records[1].x, new.records[1].z, pb.z)
+        reads_member = {("ax", "bx", "new", "bz"): True, ("ax", "ax", "new", "bz"): False}.get(got)
+        if reads_member is None:
+            raise Unsupported("GroupedRecord._replace(z='new') on the probe members gave %r" % (got,))
+        r1 = r2 = None
+        try:
+            pa._replace(q=1)
+            r1 = False
+        except ValueError:
+            r1 = True
+        try:
+            GR("grp/p", [pa, pb])._replace(q=1)
+            r2 = False
+        except ValueError:
+            r2 = True
+        if r1 != r2:
+            raise Unsupported("Record._replace and GroupedRecord._replace treat unknown names differently")
+        if pa._replace(x="k").x != "k" or pa.x != "ax":
+            raise Unsupported("Record._replace does not replace / modifies the original")
+    except Unsupported:
+        raise
+    except Exception as ex:  # noqa
+        raise Unsupported("probing GroupedRecord raised %r" % (ex,))
+    return dict(first_wins=first_wins, flat_excl=flat_excl, routes=bool(routes), maps_to_leaf=maps_to_leaf, attrs=attrs,
+                reads_member=reads_member, raises=r1)
+
+
+def observe_rewriter(base, stream):
+    e = _probe_env(base)
+    D = e["RD"]("probe/rw", [("string", "a"), ("varint", "b"), ("string", "c")])
+    r = D(a="x", b=2, c="y", _source="s", _generated=e["G1"])
+    RW = stream.RecordFieldRewriter
+
+    def names(**kw):
+        try:
+            o = RW(**kw).rewrite(r)
+            return [n for _, n in o._desc.get_field_tuples()], o
+        except Exception as ex:  # noqa
+            return "raised %s" % type(ex).__name__, None
+    n1, _ = names(fields=["b", "a"], exclude=["a"])
+    exclude_wins = {("b",): True, ("b", "a"): False}.get(tuple(n1) if isinstance(n1, list) else n1)
+    n2, _ = names(fields=["zz", "c", "b"])
+    skips_unknown = True if n2 == ["c", "b"] else False
+    n3, o3 = names(exclude=["b"])
+    if exclude_wins is None or n3 != ["a", "c"] or o3.a != "x" or o3._source != "s":
+        raise Unsupported("RecordFieldRewriter on the probe record: fields+exclude -> %r, exclude -> %r" % (n1, n3))
+    try:
+        identity = RW().rewrite(r) is r
+    except Exception as ex:  # noqa
+        raise Unsupported("RecordFieldRewriter().rewrite raised %r" % (ex,))
+    return dict(exclude_wins=exclude_wins, skips_unknown=skips_unknown, identity=identity)
+
+
+def observe_purity(base):
+    e = _probe_env(base)
+    D = e["RD"]("probe/pure", [("string", "name"), ("datetime", "d")])
+    before = [(f.typename, n) for n, f in D.fields.items()]
+    allf = list(D.get_all_fields())
+    after = [(f.typename, n) for n, f in D.fields.items()]
+    if allf != ["name", "d"] + list(base.RESERVED_FIELDS) or before != [("string", "name"), ("datetime", "d")]:
+        raise Unsupported("get_all_fields() of the probe descriptor is %r" % (allf,))
+    copies = after == before and [f.name for f in D.getfields("datetime")] == ["d"]
+    g = base.GroupedRecord("grp/q", [D(name="alice", d=e["T1"], _generated=e["G1"])])
+    try:
+        v = (g._asdict()["name"], g._asdict(fields=["name"])["name"], g._asdict(exclude=["d"])["name"], g._asdict(fields=["name", "d"], exclude=["d"])["name"])
+    except Exception as ex:  # noqa
+        raise Unsupported("GroupedRecord._asdict raised %r on the probe group" % (ex,))
+    return dict(copies=copies, asdict_member=all(x == "alice" for x in v))
+
+
+def observe_cache_key(base):
     pairs = [([("string", "aw")], [("wstring", "a")]), ([("string[]", "xw")], [("wstring[]", "x")]),
              ([("stringlist", "a"), ("varint", "b")], [("string", "a"), ("varint", "listb")]),
              ([("varint", "a"), ("string", "b")], [("string", "avarintb")])]
-    distinguishes = True
+    structural = True
     for fa, fb in pairs:
         da, db = base.RecordDescriptor("probe/eq", fa), base.RecordDescriptor("probe/eq", fb)
         if da == db or not (da != db):
-            distinguishes = False
-        if base.RecordDescriptor("probe/eq", fa) != da:
-            raise Unsupported("RecordDescriptor.__eq__ does not identify equal definitions")
-    if structural and not distinguishes:
-        raise Unsupported("RecordDescriptor.__eq__ looks structural but does not distinguish different definitions")
-    return dict(structural=structural and distinguishes, memoised=bool(deco))
+            structural = False
+        if base.RecordDescriptor("probe/eq", fa) != da or hash(base.RecordDescriptor("probe/eq", fa)) != hash(da):
+            raise Unsupported("RecordDescriptor.__eq__/__hash__ do not identify equal definitions")
+    return dict(structural=structural, memoised=hasattr(base.merge_record_descriptors, "cache_info"))
+
+
+def cross_check(notes, what, recogniser, observed, keys, same=None):
+    """run the ast recogniser; a recognised shape must agree with the observation"""
+    try:
+        rec = recogniser()
+    except Unsupported as ex:
+        notes.append("%s: shape not recognised (%s); observed behaviour used" % (what, ex))
+        return None
+    for k in keys:
+        a, b = rec.get(k), observed.get(k)
+        if (same(k, rec, observed) if same else a == b):
+            continue
+        raise Unsupported("%s: the source reads as %s=%r but the probes show %r" % (what, k, a, b))
+    return rec
 
 
 def gen_compose():
@@ -703,45 +996,61 @@ def gen_compose():
     import flow.record.stream as stream
     btree = ast.parse(Path(base.__file__).read_text())
     stree = ast.parse(Path(stream.__file__).read_text())
-    m = merge_facts(btree)
-    x = extend_facts(btree)
-    i = init_facts(btree)
-    t = expand_facts(btree)
-    g = group_facts(btree)
-    r = replace_facts(btree)
-    w = rewriter_facts(stree)
-    pu = purity_facts(btree)
-    ck = cache_key_facts(btree, base)
+    notes = []
+    m = observe_merge(base)
+    x = observe_extend(base)
+    i = observe_init(base)
+    t = observe_expand(base)
+    g = observe_group(base)
+    w = observe_rewriter(base, stream)
+    pu = observe_purity(base)
+    ck = observe_cache_key(base)
+    cross_check(notes, "merge_record_descriptors", lambda: merge_facts(btree), m, ["present", "not_replace", "in_map"])
+    # extend_record: only the resulting precedence is comparable (a reversal can be spelled at either place)
+    cross_check(notes, "extend_record", lambda: extend_facts(btree), x, ["rev_replace", "rev_keep"],
+                same=lambda k, rec, ob: (rec[k] != (not rec["chain_in_order"])) == ob[k])
+    cross_check(notes, "init_from_dict", lambda: init_facts(btree), i, ["filters"])
+    ta = cross_check(notes, "iter_timestamped_records", lambda: expand_facts(btree), t, ["select", "from_original", "meta"])
+    # whether the loop extends the re-bound record cannot be observed (the theorem holds either way)
+    t["extends_previous"] = ta["extends_previous"] if ta else True
+    cross_check(notes, "GroupedRecord.__init__/__getattr__/__setattr__", lambda: group_facts(btree), g,
+                ["first_wins", "flat_excl", "routes", "maps_to_leaf"])
+    cross_check(notes, "_replace", lambda: replace_facts(btree), dict(reads_member=g["reads_member"], raises=g["raises"]), ["reads_member", "raises"])
+    cross_check(notes, "RecordFieldRewriter", lambda: rewriter_facts(stree), w, ["exclude_wins", "skips_unknown", "identity"])
+    cross_check(notes, "get_all_fields/GroupedRecord._asdict", lambda: purity_facts(btree), pu, ["copies", "asdict_member"])
+    cross_check(notes, "RecordDescriptor.__eq__", lambda: cache_key_facts(btree, base), ck, ["structural"])
     ts = base.TimestampRecord
     tsf = list(ts.get_field_tuples())
     if len(tsf) != 2:
         raise Unsupported("TimestampRecord has %d fields" % len(tsf))
+    t["meta"] = sorted(t["meta"], key=list(base.RESERVED_FIELDS).index)
     reserved = [(k, v) for k, v in base.RESERVED_FIELDS.items()]
     out = HEADER
     out += "From Coq Require Import List Bool String.\nImport ListNotations.\nFrom FR Require Import Compose.\nOpen Scope string_scope.\n\n"
-    out += "(* flow/record/base.py RESERVED_FIELDS: (name, typename) in slot order *)\n"
+    out += "(* The facts below are OBSERVED on fixed probe batteries run on the real functions (the observe_... functions of tools/vf/factgen/c15.py);\n"
+    out += "   the ast recognisers are cross-checks: a recognised shape that contradicts the observation stops the translator. *)\n"
+    for nline in notes:
+        out += "(* note: %s *)\n" % nline.replace("(*", "( *").replace("*)", "* )").replace('"', "'")[:400]
+    out += "\n(* flow/record/base.py RESERVED_FIELDS: (name, typename) in slot order *)\n"
     out += "Definition gen_reserved : list (string * string) :=\n  %s.\n\n" % clist([cpair(cstr(k), cstr(v)) for k, v in reserved])
-    out += "(* TimestampRecord = RecordDescriptor(%r, %r); iter_timestamped_records selects getfields(%r) and calls\n" % (ts.name, tsf, t["select"])
-    out += "   TimestampRecord(<value>, <field name>) positionally *)\n"
+    out += "(* TimestampRecord = RecordDescriptor(%r, %r); iter_timestamped_records expands the fields of type %r and\n" % (ts.name, tsf, t["select"])
+    out += "   copies the listed reserved slots of the original record onto every output *)\n"
     out += "Definition gen_ts : tsfacts :=\n  {| ts_desc_name := %s; ts_k1 := %s; ts_t1 := %s; ts_k2 := %s; ts_t2 := %s; ts_select := %s;\n     ts_meta := %s |}.\n\n" % (
         cstr(ts.name), cstr(tsf[0][1]), cstr(tsf[0][0]), cstr(tsf[1][1]), cstr(tsf[1][0]), cstr(t["select"]),
         clist([cstr(k) for k in t["meta"]]))
-    out += "(* iter_timestamped_records: the loop extends the record it yielded in the previous round (re-binding) *)\n"
+    out += "(* iter_timestamped_records: the loop extends the record it yielded in the previous round (re-binding); read from the\n"
+    out += "   source when recognised, not observable (the theorems hold for either value) *)\n"
     out += "Definition gen_ts_extends_previous : bool := %s.\n\n" % cbool(t["extends_previous"])
-    out += "(* RecordDescriptor.get_all_fields builds its mapping from a copy of descriptor.fields (so that no operation changes\n"
-    out += "   what a descriptor reports as its fields); GroupedRecord._asdict reads every key through the owning member, with\n"
-    out += "   and without fields= *)\n"
+    out += "(* get_all_fields() leaves descriptor.fields / getfields() unchanged; GroupedRecord._asdict serves a member field called\n"
+    out += "   like a group attribute with the member's value, with and without fields= / exclude= *)\n"
     out += "Definition gen_all_fields_copies : bool := %s.\n" % cbool(pu["copies"])
     out += "Definition gen_group_asdict_reads_member : bool := %s.\n\n" % cbool(pu["asdict_member"])
-    out += "(* RecordDescriptor.__eq__ compares name and field tuples (and distinguishes constructed descriptor pairs whose\n"
-    out += "   identifier input collides); merge_record_descriptors is memoised on its arguments: %s *)\n" % ("functools.lru_cache" if ck["memoised"] else "no")
+    out += "(* RecordDescriptor.__eq__ distinguishes constructed descriptor pairs whose identifier input collides;\n"
+    out += "   merge_record_descriptors is memoised on its arguments: %s *)\n" % ("yes (cache_info present)" if ck["memoised"] else "no")
     out += "Definition gen_desc_eq_structural : bool := %s.\n" % cbool(ck["structural"])
     out += "Definition gen_merge_memoised : bool := %s.\n\n" % cbool(ck["memoised"])
-    out += "(* attributes a GroupedRecord object itself carries (assigned in GroupedRecord.__init__) *)\n"
+    out += "(* attributes a GroupedRecord object itself carries (vars() of a probe group) *)\n"
     out += "Definition gen_group_attrs : list string := %s.\n\n" % clist([cstr(a) for a in g["attrs"]])
-    out += "(* shapes read from merge_record_descriptors, extend_record, RecordDescriptor.init_from_dict,\n"
-    out += "   iter_timestamped_records, GroupedRecord.__init__/__getattr__/__setattr__/_replace, Record._replace,\n"
-    out += "   RecordFieldRewriter.record_descriptor_for_fields/rewrite *)\n"
     out += "Definition gen_facts : facts :=\n  {| " + ";\n     ".join([
         "f_merge_guard_present := %s" % cbool(m["present"]),
         "f_merge_guard_not_replace := %s" % cbool(m["not_replace"]),
@@ -754,8 +1063,8 @@ def gen_compose():
         "f_group_first_wins := %s" % cbool(g["first_wins"]),
         "f_group_flat_excludes_reserved := %s" % cbool(g["flat_excl"]),
         "f_group_getattr_routes := %s" % cbool(g["routes"]),
-        "f_group_replace_reads_member := %s" % cbool(r["reads_member"]),
-        "f_replace_raises_on_leftover := %s" % cbool(r["raises"]),
+        "f_group_replace_reads_member := %s" % cbool(g["reads_member"]),
+        "f_replace_raises_on_leftover := %s" % cbool(g["raises"]),
         "f_rewrite_exclude_wins := %s" % cbool(w["exclude_wins"]),
         "f_rewrite_skips_unknown := %s" % cbool(w["skips_unknown"]),
         "f_rewrite_identity_when_empty := %s" % cbool(w["identity"]),
